@@ -4,5 +4,5 @@ CONSTANTS
   MaxList = 1
   WithLong = TRUE
 INIT Init
-NEXT NoNext
+NEXT Next
 INVARIANT Export
